@@ -129,14 +129,30 @@ fn load_graph(
     // Map of model node index to graph node ID
     let mut node_id_from_index: HashMap<usize, NodeId> = HashMap::with_capacity(node_count);
 
+    // Node IDs come from the model file, so check they are in the range
+    // `NodeId` supports before converting them.
+    let node_ids = |ids: flatbuffers::Vector<u32>| -> Result<Vec<NodeId>, LoadError> {
+        ids.iter()
+            .map(|id| {
+                if id <= i32::MAX as u32 {
+                    Ok(NodeId::from_u32(id))
+                } else {
+                    Err(load_error!(GraphError, None, "invalid node ID {}", id))
+                }
+            })
+            .collect()
+    };
+
     let input_ids: Vec<NodeId> = serialized_graph
         .inputs()
-        .map(|ids| ids.iter().map(NodeId::from_u32).collect())
+        .map(node_ids)
+        .transpose()?
         .unwrap_or_default();
 
     let output_ids: Vec<NodeId> = serialized_graph
         .outputs()
-        .map(|ids| ids.iter().map(NodeId::from_u32).collect())
+        .map(node_ids)
+        .transpose()?
         .unwrap_or_default();
 
     let mut graph = Graph::with_capacity(node_count);
@@ -144,7 +160,7 @@ fn load_graph(
     graph.set_output_ids(&output_ids);
 
     if let Some(captures) = serialized_graph.captures() {
-        let captures: Vec<NodeId> = captures.iter().map(NodeId::from_u32).collect();
+        let captures = node_ids(captures)?;
         graph.set_captures(&captures);
     }
 
